@@ -32,6 +32,25 @@ func hE2E(dir string) {
 	}
 	kv := regattapb.NewKVClient(leader.conn)
 	tc := regattapb.NewTablesClient(leader.conn)
+	// C19 / C10: the term reported in response headers never moves backwards, revisions of
+	// acknowledged writes strictly increase per table
+	var lastTerm, lastRev uint64
+	termsOK, revsOK := true, true
+	seeHeader := func(h *regattapb.ResponseHeader, write bool) {
+		if h == nil {
+			return
+		}
+		if h.RaftTerm < lastTerm {
+			termsOK = false
+		}
+		lastTerm = h.RaftTerm
+		if write {
+			if h.Revision <= lastRev {
+				revsOK = false
+			}
+			lastRev = h.Revision
+		}
+	}
 	for sc := 0; sc < 1+n/200; sc++ {
 		r := newRand(int64(9800 + sc))
 		g := newFsmGen(r)
@@ -49,6 +68,7 @@ func hE2E(dir string) {
 				break
 			}
 		}
+		lastRev = 0
 		out.Line("reset", "ok")
 		out.Line("new 0", "ok")
 		out.Line("new 1", "ok")
@@ -70,6 +90,7 @@ func hE2E(dir string) {
 					var resp *regattapb.PutResponse
 					resp, err = kv.Put(ctx, &regattapb.PutRequest{Table: tname, Key: c.Kv.Key, Value: c.Kv.Value, PrevKv: c.PrevKvs})
 					if err == nil {
+						seeHeader(resp.Header, true)
 						rev = resp.Header.Revision
 						rendered = aResp(&regattapb.ResponseOp{Response: &regattapb.ResponseOp_ResponsePut{ResponsePut: &regattapb.ResponseOp_Put{PrevKv: resp.PrevKv}}})
 					}
@@ -79,6 +100,7 @@ func hE2E(dir string) {
 					var resp *regattapb.DeleteRangeResponse
 					resp, err = kv.DeleteRange(ctx, &regattapb.DeleteRangeRequest{Table: tname, Key: c.Kv.Key, RangeEnd: c.RangeEnd, PrevKv: c.PrevKvs, Count: c.Count})
 					if err == nil {
+						seeHeader(resp.Header, true)
 						rev = resp.Header.Revision
 						rendered = aResp(&regattapb.ResponseOp{Response: &regattapb.ResponseOp_ResponseDeleteRange{ResponseDeleteRange: &regattapb.ResponseOp_DeleteRange{Deleted: resp.Deleted, PrevKvs: resp.PrevKvs}}})
 					}
@@ -98,6 +120,7 @@ func hE2E(dir string) {
 					var resp *regattapb.TxnResponse
 					resp, err = kv.Txn(ctx, rq)
 					if err == nil {
+						seeHeader(resp.Header, true)
 						rev = resp.Header.Revision
 						rendered = fmt.Sprintf("%s %s", b2i(resp.Succeeded), aResps(resp.Responses))
 					}
@@ -140,6 +163,7 @@ func hE2E(dir string) {
 						out.Count("refused")
 						break
 					}
+					seeHeader(resp.Header, false)
 					out.Line(fmt.Sprintf("rread range %s %s", b2i(lin), rRange(wq)), "ok "+aRR(&regattapb.ResponseOp_Range{Kvs: resp.Kvs, More: resp.More, Count: resp.Count}))
 					out.Count("rread_range")
 					out.Count("useful")
@@ -188,6 +212,13 @@ func hE2E(dir string) {
 			}
 		}
 	}
+	hs := "ok"
+	if !termsOK {
+		hs = "TERM-MOVED-BACKWARDS"
+	} else if !revsOK {
+		hs = "REVISION-NOT-INCREASING"
+	}
+	out.Line("headers", hs)
 	if leader.alive() {
 		out.Line("alive", "ok")
 	} else {
